@@ -1,6 +1,7 @@
 package reputil
 
 import (
+	"net"
 	"fmt"
 	"math/rand"
 	"strings"
@@ -256,7 +257,38 @@ var BadIPs = []string{"0.0.0.0", "255.255.255.255", "224.0.0.1", "239.255.255.25
 // prefixFamilies: addresses whose dotted text is a prefix of another's (an ownership check done on text must not confuse them)
 var prefixFamilies = [][]string{{"1.1.1.1", "1.1.1.10", "1.1.1.12", "1.1.1.100"}, {"10.0.0.7", "10.0.0.70", "10.0.0.77"}, {"8.8.4.4", "8.8.4.41"}, {"172.16.5.5", "172.16.5.50"}}
 
+// bitNeighbour: an address that differs from ip in exactly one bit (a hand-rolled address comparison — packed integers,
+// xor/or chains — must still tell them apart); victims with many one-bits make absorbed differences likely.
+func bitNeighbour(rng *rand.Rand, ip string) string {
+	b, ok := ParseIP4(ip)
+	if !ok {
+		return ip
+	}
+	for try := 0; try < 20; try++ {
+		c := append(net.IP{}, b...)
+		c[rng.Intn(4)] ^= 1 << uint(rng.Intn(8))
+		if c[0] >= 1 && c[0] <= 223 && !(c[0] == 169 && c[1] == 254) {
+			return c.String()
+		}
+	}
+	return ip
+}
+
+var denseIPs = []string{"223.255.255.254", "191.255.127.255", "126.254.253.251", "95.223.239.247", "81.200.5.7", "10.0.0.5", "1.2.3.4"}
+
 func PickIPs(rng *rand.Rand, n int, bad bool) []string {
+	if !bad && rng.Intn(5) == 1 {
+		// attacker and victim differ in exactly one bit
+		victim := denseIPs[rng.Intn(len(denseIPs))]
+		if rng.Intn(3) == 0 {
+			victim = GoodIPs[rng.Intn(len(GoodIPs))]
+		}
+		out := []string{bitNeighbour(rng, victim), victim}
+		for len(out) < n {
+			out = append(out, bitNeighbour(rng, victim))
+		}
+		return out
+	}
 	if !bad && rng.Intn(5) == 0 {
 		// the first address (the attacker in the adversarial scripts) is a textual prefix of the second (the victim)
 		fam := prefixFamilies[rng.Intn(len(prefixFamilies))]
